@@ -794,6 +794,7 @@ Proof.
   intros P H. unfold check_flags in H. cbv zeta in H.
   step H. rename E into E240.
   step H. rename E into E241.
+  step H. rename E into E243.
   step H. rename E into E242.
   step H. rename E into E244.
   step H. rename E into E245.
